@@ -210,6 +210,12 @@ def main():
         for nm in names:
             for ur in (uroots if len(nm) <= 2 else uroots[:3]):
                 cases.append(dict(names=[nm], targets=[], unpack_root=ur))
+        # names around the pseudo entries '.' and '..': longer names that merely begin or end with dots, alone, together, and as directories with children
+        DOTS = [b"...", b"..a", b".a", b"a..", b".. ", b"..\"", b"....", b". .", b"..data", b".a."]
+        for nm in DOTS:
+            for ur in uroots[:2]:
+                cases.append(dict(names=[nm], targets=[], unpack_root=ur))
+        cases.append(dict(names=DOTS, targets=[b"..", b"...", b"./..a"], unpack_root="out"))
         # every symlink target of length <= 2, on plain names
         for tg in tgts:
             for ur in uroots[:2]:
